@@ -8,7 +8,7 @@ from . import schemarun as R
 from . import simplerun as Q
 
 PATTERNS = ["a", "a+", "^a$", "(a)", "(", "[", "^[a-z]+$", "\\d+", "日", "", "b$", "a|b", "^x-", "(?i)A", "a{2}", "*"]
-STRINGS = ["", "a", "aa", "ab", "b", "7", "日本", "x", "x-1", "A"]
+STRINGS = ["", "a", "aa", "ab", "b", "7", "日本", "x", "x-1", "A", "a ", " a", "a\t", "b ", "x- ", "aa "]
 SPECS = ["fixtures/validation/valid-ref.json", "fixtures/validation/fixture-161-good.json", "fixtures/validation/fixture-43.json", "fixtures/validation/duplicateprops.json", "fixtures/validation/fixture-1243-5.json"]
 
 
@@ -33,6 +33,11 @@ def rexp_cases(seed, n, concurrent):
     for i in range(n):
         npat = rng.randint(2, 6)
         pats = rng.sample(PATTERNS, npat)
+        # near-duplicates of the chosen patterns: the same text with blanks around it, in another case, doubled, or
+        # extended - different expressions that a lookup under a normalised key would confuse
+        for p0 in list(pats):
+            if rng.random() < 0.5:
+                pats.append(rng.choice([p0 + " ", " " + p0, p0 + "\t", p0.upper(), p0.lower(), p0 + p0, p0 + "$", "^" + p0]))
         ops = [{"via": rng.choice(["Pattern", "Pattern", "schema", "patprops"]), "p": rng.choice(pats), "s": rng.choice(STRINGS)}
                for _ in range(rng.randint(5, 60))]
         c = {"id": i, "ops": ops}
